@@ -7,7 +7,7 @@ import tempfile
 from hypothesis import strategies as st
 
 from props import c04
-from vlib import cidlib, enc_ods, enc_xlsx, gen_tables, model_validio
+from vlib import cidlib, enc_ods, enc_xlsx, gen_tables, model_fields, model_validio
 from vlib.runner import norm_message
 
 import cutplace
@@ -16,7 +16,10 @@ from cutplace import errors
 PROPERTY_ID = "C17"
 RULE = (
     "Hypothesis: a CID spec (1-5 fields of all types incl. Decimal and DateTime, optional IsUnique / DistinctCount, "
-    "header 0-2) and a table of text cells from the fields' accepted / rejected pools. The CID rows are stored as "
+    "header 0-2) and a table of text cells from the fields' accepted / rejected pools, in half of the cases with 1-3 "
+    "cells replaced by texts the model has no opinion on (number-, date-, boolean-like, padded, non-ASCII digits; then "
+    "only the agreement of the nine runs is judged); the CID optionally carries comment rows full of characters that "
+    "are item delimiters in some CSV dialect. The CID rows are stored as "
     "CSV text, ODS and XLSX, once per data format {Delimited, ODS, Excel} (9 CID files), loaded with "
     "cutplace.Cid(path); the table is stored as delimited text, ODS and XLSX and read under the CID whose Format "
     "names that storage: 3 x 3 runs per case. Oracle (differential + model): the three CIDs loaded for one data "
@@ -33,6 +36,12 @@ ASSUMPTIONS = [
     "only properties that apply to all three formats are set (Header)",
 ]
 
+WILD_TEXTS = ["1e+16", "1E5", "1e3", "1.0", "1.", ".5", "0x10", " 12", "12 ", "+5", "-0", "1_0", "\u0661\u0662", "\uff11\uff12",
+              "1,000", "1.000", "007", "TRUE", "true", "12:00:00", "1900-01-01", "NaN", "inf", "-inf", "1e400",
+              "12345678901234567890", "1.2345678901234568e+16", "3.0e+0", "1 000", "\xa012", "=1+1", "'12"]
+# what spreadsheet programs and float formatting make of big or fractional numbers
+WILD_NUMBERS = ["1e+16", "-3e+17", "1e+10", "1.2345678901234568e+16", "1E+16", "1e16", "2e+05", "1.5e+3", "12e+16",
+                "1e-05", "1.0", "100.0", "1.00", "5.", "1,0", "1.0E+3"]
 STORAGES = ("csv", "ods", "xlsx")
 DATA_FORMATS = ("delimited", "ods", "excel")
 
@@ -42,7 +51,21 @@ def cases(draw):
     spec = draw(gen_tables.cid_specs(kinds=("excel",), max_header=2))
     spec["fmt"]["sheet"] = None
     rows = draw(gen_tables.tables(spec, max_rows=6, ragged=False))
-    return {"spec": spec, "rows": rows}
+    header = spec["fmt"].get("header", 0)
+    if len(rows) > header and draw(st.booleans()):
+        # texts on which the reference model has no opinion (number-like, date-like, padded): whatever a field makes
+        # of them, it has to be the same in all three formats.  DateTime columns are left alone (documented suffix).
+        columns = [i for i, f in enumerate(spec["fields"]) if f["type"] != "DateTime" and i < len(spec["fields"]) - 1
+                   or (f["type"] != "DateTime" and len(spec["fields"]) == 1)]
+        for _ in range(draw(st.integers(1, 3)) if columns else 0):
+            y = draw(st.integers(header, len(rows) - 1))
+            x = draw(st.sampled_from(columns))
+            if x < len(rows[y]):
+                numeric = spec["fields"][x]["type"] in ("Integer", "Decimal")
+                rows[y][x] = draw(st.sampled_from(WILD_NUMBERS if numeric and draw(st.booleans()) else WILD_TEXTS))
+    # a comment row of the CID with many characters that are item delimiters in some CSV dialect
+    comment = draw(st.sampled_from(["", "", ";" * 400, "\t" * 400, "a;b\tc|d;" * 80, "x,y" * 5, ":" * 300]))
+    return {"spec": spec, "rows": rows, "comment": comment}
 
 
 def _variant(spec, data_format):
@@ -98,6 +121,8 @@ def check_case(sub, case):
             variant = _variant(spec, data_format)
             models[data_format] = model_validio.predict(variant, rows)
             cid_rows = cidlib.cid_rows(variant["fmt"], variant["fields"], gen_tables.check_rows(variant))
+            if case.get("comment"):
+                cid_rows = cid_rows[:1] + [["", case["comment"]]] + cid_rows[1:] + [["", "", case["comment"]]]
             data_path, _ = gen_tables.write_source(variant, rows, tmpdir, "path", name="data-" + data_format)
             signatures = {}
             for storage in STORAGES:
@@ -128,18 +153,34 @@ def check_case(sub, case):
                              "CID loaded from %s: %r; from csv: %r" % (storage, signatures[storage], signatures["csv"]))
         # neutral when the reference itself is format dependent or tainted
         reference = models["delimited"]
-        comparable = all(not models[f]["tainted"] for f in DATA_FORMATS) and all(
+        tainted = any(models[f]["tainted"] for f in DATA_FORMATS)
+        comparable = all(
             [o if o is None else o[:4] for o in models[f]["outcomes"]] ==
             [o if o is None else o[:4] for o in reference["outcomes"]] and models[f]["end"] == reference["end"]
             for f in DATA_FORMATS)
+        if comparable and tainted:
+            # a cell without reference verdict hides the rest of its row from the model: look at the cells themselves
+            variants = [_variant(spec, f) for f in DATA_FORMATS]
+            for row in rows[spec["fmt"].get("header", 0):]:
+                for field_index, cell in enumerate(row[:len(spec["fields"])]):
+                    verdicts = set(model_fields.verdict(v["fields"][field_index], v["fmt"], cell)[0] for v in variants)
+                    if len(verdicts) > 1:
+                        comparable = False
         if not comparable:
-            sub.case(None, False, ["format-specific-or-tainted"])
+            sub.case(None, False, ["format-specific"])
             return
         base = results[("csv", "delimited")]
         for key, value in sorted(results.items()):
             if value != base:
                 sub.fail("C17|verdict-differs|cid-%s|data-%s" % key, case,
                          "CID from %s, data as %s: %r; CID from csv, data delimited: %r" % (key[0], key[1], value, base))
+        if tainted:
+            # texts the model leaves open: the nine runs agree (checked above), there is nothing to compare them with
+            sub.case((str(cidlib.cid_rows(spec["fmt"], spec["fields"], gen_tables.check_rows(spec))), rows), True,
+                     ["wild-texts", "header:%d" % spec["fmt"].get("header", 0)],
+                     sample={"fields": [[f["name"], f["type"], f["rule"]] for f in spec["fields"]], "rows": rows[:5],
+                             "verdicts": [i[0] if i[0] == "row" else i[1] for i in base[0]][:6]}, evals=0)
+            return
         # and against the model
         wanted = [o for o in reference["outcomes"] if o is not None]
         items, ended = base
